@@ -9,25 +9,26 @@ package zlib
 // Writer
 // ---------------------------------------------------------------------------
 
-//@ pure zwBase(z *Writer) bool = z.w != nil && -2 <= z.level && z.level <= 9 && (z.compressor != nil ==> wOK(z.compressor) && z.digest != nil) && (z.wroteHeader && z.err == nil ==> z.compressor != nil) && (!z.wroteHeader && z.compressor != nil ==> !wClosed(z.compressor) && !wStuck(z.compressor)) && (z.err != nil ==> z.wroteHeader) && (z.closed ==> z.wroteHeader)
+//@ pure zwBase(z *Writer) bool = z.w != nil && (z.err == nil ==> !dstFailed(z.w)) && -2 <= z.level && z.level <= 9 && (z.compressor != nil ==> wOK(z.compressor) && z.digest != nil) && (z.wroteHeader && z.err == nil ==> z.compressor != nil) && (!z.wroteHeader && z.compressor != nil ==> !wClosed(z.compressor) && !wStuck(z.compressor)) && (z.err != nil ==> z.wroteHeader) && (z.closed ==> z.wroteHeader)
 //@ pure zwOK(z *Writer) bool = zwBase(z) && (z.err == nil && z.wroteHeader ==> (z.closed == wClosed(z.compressor)) && (!z.closed ==> !wStuck(z.compressor)))
 //@ pure zwFresh(z *Writer) bool = zwOK(z) && !z.wroteHeader && !z.closed && z.err == nil && (z.compressor != nil ==> !wClosed(z.compressor) && !wStuck(z.compressor) && (z.compressor.lc != nil ==> lcFresh(z.compressor.lc)))
 
 //@ func NewWriterLevelDict
-//@   requires w != nil
+//@   requires w != nil && !dstFailed(w)
 //@   modifies nothing
 //@   ensures[C16 level-valid] (result1 != nil) == (level < -2 || level > 9)
 //@   ensures[C12 C16 ctor-inv] result1 == nil ==> result0 != nil && zwFresh(result0) && result0.compressor == nil && result0.level == level && result0.w == w
 //@   ensures result1 != nil ==> result0 == nil
 
 //@ func (*Writer).Reset
-//@   requires w != nil && -2 <= z.level && z.level <= 9 && (z.compressor != nil ==> wShape(z.compressor) && z.digest != nil)
+//@   requires w != nil && !dstFailed(w) && -2 <= z.level && z.level <= 9 && (z.compressor != nil ==> wShape(z.compressor) && z.digest != nil)
 //@   modifies *z, **z.compressor
 //@   ensures[C12 C16 fresh] zwFresh(z) && same(z.level) && z.w == w && same(z.compressor) && same(z.dict)
 
 //@ func (*Writer).writeHeader
-//@   requires zwBase(z) && !z.wroteHeader
-//@   modifies *z, extWrites
+//@   requires zwBase(z) && !z.wroteHeader && z.err == nil
+//@   modifies *z, **z.w, extWrites, lastWriteErr
+//@   ensures[C14 dst-err] err == nil ==> !dstFailed(z.w)
 //@   ensures z.wroteHeader && same(z.w) && same(z.level) && same(z.closed)
 //@   ensures err == nil ==> z.compressor != nil && wOK(z.compressor) && z.digest != nil && !wClosed(z.compressor) && !wStuck(z.compressor)
 //@   ensures old(z.compressor) != nil ==> same(z.compressor) && same(z.digest)
@@ -35,7 +36,7 @@ package zlib
 
 //@ func (*Writer).Write
 //@   requires zwOK(z)
-//@   modifies *z, **z.compressor, extWrites
+//@   modifies *z, **z.compressor, **z.w, extWrites, lastWriteErr
 //@   ensures[C16 inv] zwOK(z)
 //@   ensures[C14 C16 sticky-in] old(z.err) != nil ==> n == 0 && err == old(z.err) && extWrites == old(extWrites) && same(z.err)
 //@   ensures[C14 sticky-out] err != nil ==> z.err == err
@@ -44,7 +45,7 @@ package zlib
 
 //@ func (*Writer).Flush
 //@   requires zwOK(z)
-//@   modifies *z, **z.compressor, extWrites
+//@   modifies *z, **z.compressor, **z.w, extWrites, lastWriteErr
 //@   ensures[C16 inv] zwOK(z)
 //@   ensures[C14 C16 sticky-in] old(z.err) != nil ==> result == old(z.err) && extWrites == old(extWrites) && same(z.err)
 //@   ensures[C14 sticky-out] result != nil ==> z.err == result
@@ -53,7 +54,7 @@ package zlib
 
 //@ func (*Writer).Close
 //@   requires zwOK(z)
-//@   modifies *z, **z.compressor, extWrites, lastSum32
+//@   modifies *z, **z.compressor, **z.w, extWrites, lastSum32, lastWriteErr
 //@   ensures[C16 inv] zwOK(z)
 //@   ensures[C14 C16 sticky-in] old(z.err) != nil ==> result == old(z.err) && extWrites == old(extWrites) && same(z.err)
 //@   ensures[C14 sticky-out] result != nil ==> z.err == result
